@@ -36,6 +36,7 @@ type Obligation struct {
 	Backend  string
 	Seconds  float64
 	FirstTry string `json:"-"`
+	Closure  bool   `json:"-"` // generated for the closure of contracts, not by the property's own plan
 	Output   string
 	Frame    bool // decided by the frame engine, not by SMT
 	Canary   bool // vacuity canary: the goal is false, the obligation must NOT be discharged
@@ -241,7 +242,7 @@ func discharge(o *Obligation, cfg *solveCfg) {
 	if cfg.cacheDir != "" {
 		h := sha256.Sum256([]byte(canonicalQuery(body)))
 		ckey = hex.EncodeToString(h[:])
-		if b, err := os.ReadFile(filepath.Join(cfg.cacheDir, ckey[:2], ckey)); err == nil && strings.HasPrefix(string(b), "unsat ") {
+		if b, err := os.ReadFile(filepath.Join(cfg.cacheDir, ckey[:2], ckey)); err == nil && o.Closure && strings.HasPrefix(string(b), "unsat ") {
 			o.Status, o.Backend, o.Seconds = "unsat", "cache("+strings.TrimSpace(strings.TrimPrefix(string(b), "unsat "))+")", 0
 			o.Output = "answer reused: an identical query (sha256 " + ckey[:16] + "…) was answered unsat by " + strings.TrimSpace(strings.TrimPrefix(string(b), "unsat ")) + " earlier"
 			return
